@@ -73,7 +73,11 @@ func tupleFromArgs(callable bool, args px.List) *TupleType {
 		if ar, ok := args.At(0).(*Array); ok {
 			tupleArgs := ar.AppendTo(make([]px.Value, 0, ar.Len()+argc-1))
 			if argc == 2 {
-				tupleArgs = append(tupleArgs, args.At(1).(*IntegerType).Parameters()...)
+				sz, ok := args.At(1).(*IntegerType)
+				if !ok {
+					panic(illegalArgumentType(`Tuple[]`, 1, `Type[Integer]`, args.At(1)))
+				}
+				tupleArgs = append(tupleArgs, sz.Parameters()...)
 			}
 			args = WrapValues(tupleArgs)
 			argc = len(tupleArgs)
